@@ -63,8 +63,8 @@ class VecOp(Contract):
         s.qual = ('Field', s.prop)
         s.func = f'Field.{s.prop}'
 
-    def make(s, E, d, nv, mapping, bc='', shuffled=False):
-        m, assume = sym_mesh(E, d, prefix='fm', tf=1e-12, cellcond=True, bc=bc)
+    def make(s, E, d, nv, mapping, bc='', shuffled=False, dims=None):
+        m, assume = sym_mesh(E, d, prefix='fm', tf=1e-12, cellcond=True, bc=bc, dims=dims)
         dims = m.attrs['_region'].attrs['_dims']
         vd = ['p', 'q', 'r', 's'][:nv] if nv > 1 else None
         mp = {}
@@ -77,7 +77,7 @@ class VecOp(Contract):
         return f, assume
 
     def pre_state(s, E, cfg):
-        f, assume = s.make(E, cfg['ndim'], cfg['nvdim'], cfg.get('mapping'), cfg.get('bc', ''), cfg.get('shuffled', False))
+        f, assume = s.make(E, cfg['ndim'], cfg['nvdim'], cfg.get('mapping'), cfg.get('bc', ''), cfg.get('shuffled', False), cfg.get('dims'))
         st = State(f, [], {})
         st.assume, st.cfg = assume, cfg
         return st
@@ -114,6 +114,8 @@ class Grad(VecOp):
     def configs(s, tier):
         out = [{'ndim': d, 'nvdim': 1} for d in ((1, 2, 3) if tier == 'quick' else (1, 2, 3, 4))]
         out += [{'ndim': 2, 'nvdim': 1, 'bc': 'a'}, {'ndim': 2, 'nvdim': 2, 'mapping': (0, 1)}]
+        # axes named like the default component labels, in another order: the gradient's component j belongs to axis j
+        out += [{'ndim': 3, 'nvdim': 1, 'dims': ('z', 'x', 'y')}, {'ndim': 2, 'nvdim': 1, 'dims': ('y', 'x')}]
         return out
 
     def raises(s, E, st):
@@ -173,7 +175,8 @@ class Curl(VecOp):
         out = [{'ndim': 3, 'nvdim': 3, 'mapping': p} for p in MAPPINGS3]
         out += [{'ndim': 3, 'nvdim': 3, 'mapping': (1, 2, 0), 'shuffled': True}, {'ndim': 3, 'nvdim': 3, 'mapping': (0, 2, 1), 'bc': 'b'},
                 {'ndim': 2, 'nvdim': 3, 'mapping': None}, {'ndim': 3, 'nvdim': 2, 'mapping': (0, 1)}, {'ndim': 3, 'nvdim': 3, 'mapping': None},
-                {'ndim': 3, 'nvdim': 3, 'mapping': (0, 1, 'nodim')}]
+                {'ndim': 3, 'nvdim': 3, 'mapping': (0, 1, 'nodim')},
+                {'ndim': 3, 'nvdim': 3, 'mapping': (1, 2, 0), 'dims': ('y', 'z', 'x')}]
         return out
 
     def raises(s, E, st):
@@ -226,7 +229,21 @@ class Laplace(VecOp):
         return out
 
 
-CONTRACTS = [Grad(), Div(), Curl(), Laplace()]
+class FieldInitLabels(FieldInit):
+    """the part of the constructor contract that the four operators rely on for their results: default component labels
+    and the default component-to-axis mapping pair component j with axis j BY POSITION (also when the axes carry the
+    names of the default labels in another order); given labels / mappings are stored as given"""
+    name = 'Field.__init__[labels and mapping]'
+
+    def configs(s, tier):
+        return [{'ndim': 3, 'nvdim': 3, 'value': 'array', 'valid': 'array', 'dims': ('z', 'x', 'y')},
+                {'ndim': 2, 'nvdim': 2, 'value': 'array', 'valid': 'array', 'dims': ('y', 'x')},
+                {'ndim': 3, 'nvdim': 3, 'value': 'array', 'valid': 'array'},
+                {'ndim': 2, 'nvdim': 2, 'value': 'array', 'valid': 'array', 'vdims': 'custom', 'mapping': 'permuted'},
+                {'ndim': 2, 'nvdim': 3, 'value': 'array', 'valid': 'array'}]
+
+
+CONTRACTS = [Grad(), Div(), Curl(), Laplace(), FieldInitLabels()]
 _BY_NAME = {c.name: c for c in CONTRACTS}
 setup_engine = c03.setup_engine
 
